@@ -228,7 +228,47 @@ def classify(tu, fn, body, enums, sizes):
         return info
     info.update(kind="algorithmic")
     info["body_sha"] = hashlib.sha256(repr(b).encode()).hexdigest()[:16]
+    info["memset_scales"] = memset_scales(b, params, sizes)
     return info
+
+
+def memset_scales(node, params, sizes):
+    """For every `memset(dst, ...)` in a function body: the element size the destination
+    address is scaled by, i.e. sizeof(*P) when dst is `P + n` for a pointer P (1 for byte
+    pointers / byte arrays), 0 when the shape is not understood."""
+    out = []
+
+    def pointee_size(e):
+        e = strip_ptrcast(e) if e[0] != "ptrcast" else e
+        if e[0] == "param" and params.get(e[1], {}).get("pointer"):
+            t = params[e[1]]["type"].replace("const ", "").rstrip("*").strip()
+            if t in ("uint8_t", "char", "unsigned char", "void"):
+                return 1
+            return sizes.get("sizeof:" + t, 0)
+        if e[0] == "member":      # uint8_t payload[0] / header[..]
+            return 1
+        if e[0] == "ptrcast":
+            t = e[1].replace("const ", "").rstrip("*").strip()
+            if t in ("uint8_t", "char", "unsigned char"):
+                return 1
+            return sizes.get("sizeof:" + t, 0)
+        return 0
+
+    def walk(n):
+        if isinstance(n, tuple):
+            if len(n) >= 3 and n[0] == "call" and n[1] == "memset":
+                dst = n[2][0]
+                while dst[0] == "ptrcast" and dst[1].startswith("void"):
+                    dst = dst[2]
+                if dst[0] == "bin" and dst[1] == "+":
+                    out.append(pointee_size(dst[2]))
+                else:
+                    out.append(1 if pointee_size(dst) else 0)
+            for c in n:
+                walk(c)
+
+    walk(node)
+    return out
 
 
 def desugar(tu, q):
